@@ -6,7 +6,7 @@ from .grouplike import sf
 
 PROPERTY = "C12"
 LEVEL = "other"
-CONFIGS_QUICK = ["std"]
+CONFIGS_QUICK = ["std", "alloc"]
 CONFIGS_THOROUGH = ["std", "alloc"]
 EXPLANATION = (
     "Inductive-invariant check on the MIR of StreamGroup (same representation invariant as FutureGroup): INSERT / RESERVE / REMOVE / "
